@@ -37,6 +37,7 @@ def main(argv):
     sv.add_argument("--patch", default=None)
     sv.add_argument("--prop", default=None)
     sv.add_argument("--tier", default="quick")
+    sv.add_argument("--report", action="store_true")
     a = ap.parse_args(argv)
 
     from dsim import runner
@@ -76,6 +77,8 @@ def main(argv):
             return 0
         if a.patch:
             return mutants.eval_patch(a.patch, a.prop, a.tier)
+        if a.report:
+            return mutants.report()
         return mutants.sensitivity(a.ids or None, a.tests)
     if a.cmd == "selftest":
         from dsim.selftest import selftest
